@@ -7,6 +7,7 @@ import Tahoe.Mutable.CheckRepair
     `repair FORCE WRITEKEY VTABLE op op …` → decision of `Repairer._got_full_servermap`:
                               unrepairable | MustForceRepairError:newer | MustForceRepairError:merge |
                               RepairRequiresWritecapError | republish:VIDX:NEWSEQ
+    `getver N|VIDX VTABLE op op …` → `_get_version_from_servermap`'s choice: VIDX or UnrecoverableFileError
     VTABLE and ops as in `Drv/C11.lean`. -/
 open Tahoe.Drv Tahoe.Mutable Tahoe.Mutable.Parse Tahoe.Mutable.Check
 
@@ -37,6 +38,16 @@ def handle : List String → String
         | .mustForceMerge => "MustForceRepairError:merge"
         | .needWritecap => "RepairRequiresWritecapError"
         | .republish v s => s!"republish:{vidx tbl v}:{s}")) with
+    | some s => s
+    | none => "bad-op"
+  | "getver" :: want :: vt :: ops =>
+    match (do
+      let tbl ← parseVTable vt
+      let sm ← buildMap tbl {} ops
+      let v ← if want == "N" then some none else (do let i ← want.toNat?; pure (some (← tbl[i]?)))
+      pure (match getVersion sm v with
+        | none => "UnrecoverableFileError"
+        | some w => s!"{vidx tbl w}")) with
     | some s => s
     | none => "bad-op"
   | _ => "bad-op"
